@@ -33,6 +33,7 @@ EXPLANATION = (
     "fixed narrower integer type is range-guarded. R-C20-4: the importer opens the file read-only and reaches no write "
     "call. Not decided: equality of values after a real round trip.")
 EXPLANATION += (' R-C20-5: the identifier dataset and the value dataset of a variable are parallel arrays and must come from the same table in the same order class. R-C20-6: a value cached on the importer by a method with arguments must be keyed by them (zero instances expected; a built-in positive example is evaluated on every run).')
+EXPLANATION += (" R-C20-7: the index the importer attaches to a variable's values follows that variable's own MYGEOMETRYIDS order (identifier frame on the left of an order-preserving merge); the exporter applies no unit-dependent tolerance (np.allclose/isclose) when it decides about the mesh.")
 ASSUMPTIONS = [
     "h5py semantics: group[name] addresses a child, create_group/create_dataset create it, attrs is a key/value store",
     "string formatting with %s inserts exactly one path component",
@@ -422,6 +423,7 @@ def run(ctx):
 
     ctx.attempt(lambda c: _check_parallel_order(c, prog, exp_ci))
     ctx.attempt(lambda c: _check_cache_keys(c, prog, imp_ci))
+    ctx.attempt(lambda c: _check_value_order(c, prog, exp_ci, imp_ci))
 
     # ---------------------------------------------------------------- R-C20-4 read only
     ctx.rule("R-C20-4", floor=2, what="importer opens the file read-only and reaches no write call")
@@ -533,6 +535,52 @@ def _check_parallel_order(ctx, prog, exp_ci):
                              text="parallel datasets order")
     if n == 0:
         raise AnalysisError("no variable group with parallel id/value datasets found")
+
+
+def _check_value_order(ctx, prog, exp_ci, imp_ci):
+    """R-C20-7: (a) the index the importer attaches to a variable's values is in the order of that variable's own identifier
+    dataset: where it is built by a merge, the identifier frame is the LEFT operand of an order-preserving merge (pandas
+    inner/left merges keep the order of the left keys), never the geometry's index; (b) the exporter decides 2-D vs 3-D by
+    exact comparison of the z coordinates, not with a tolerance that depends on the coordinate unit."""
+    ctx.rule("R-C20-7", floor=2, what="imported value index follows the variable's own identifier order; no unit-dependent tolerance in the exporter")
+    n = 0
+    for name, fs in imp_ci.methods.items():
+        f = fs[-1]
+        idl = {st.targets[0].id for st in walk_function(f.node) if isinstance(st, ast.Assign) and isinstance(st.targets[0], ast.Name)
+               and any(isinstance(x, ast.Constant) and x.value == "MYGEOMETRYIDS" for x in ast.walk(st.value))}
+        for c in calls_in(f.node):
+            if isinstance(c.func, ast.Attribute) and c.func.attr in ("merge", "join") and idl:
+                recv = c.func.value
+                while isinstance(recv, (ast.Call, ast.Attribute, ast.Subscript)):
+                    recv = recv.func.value if isinstance(recv, ast.Call) and isinstance(recv.func, ast.Attribute) else \
+                        (recv.value if not isinstance(recv, ast.Call) else recv.args[0] if recv.args else recv.func)
+                how = next((const_value(k.value) for k in c.keywords if k.arg == "how"), "inner" if c.func.attr == "merge" else "left")
+                n += 1
+                if isinstance(recv, ast.Name) and recv.id in idl and how in ("inner", "left"):
+                    ctx.holds(f, c, "%s: %s.%s(..., how=%r): result rows follow the variable's identifier order" %
+                              (f.name, recv.id, c.func.attr, how))
+                else:
+                    ctx.violated(f, c, "%s: the index for the variable's values is built by %s with %s on the left (how=%r): its rows "
+                                 "follow that operand's order, but MYVALUES are stored in the order of the variable's MYGEOMETRYIDS - "
+                                 "values land on the wrong elements when the two orders differ" %
+                                 (f.name, c.func.attr, norm_text(recv), how), text="merge order " + f.name)
+    if n == 0:
+        raise AnalysisError("importer: no merge that builds a variable index found")
+    for name, fs in exp_ci.methods.items():
+        f = fs[-1]
+        for c in calls_in(f.node):
+            fn = call_name(c) or ""
+            if fn in ("np.allclose", "np.isclose", "math.isclose", "np.round", "np.around"):
+                st = c
+                while not isinstance(st, ast.stmt):
+                    st = st._parent
+                ctx.violated(f, st, "%s: %s decides about the mesh with a tolerance that depends on the coordinate unit (a genuinely "
+                             "3-D mesh with a small extent is written as 2-D)" % (f.name, norm_text(c)), text=norm_text(c))
+    dims = [st for name, fs in exp_ci.methods.items() for st in walk_function(fs[-1].node)
+            if isinstance(st, ast.If) and any(isinstance(x, ast.Assign) and any(is_self_attr(t, "_dimension") for t in x.targets) for x in st.body)]
+    holder = prog.lookup_method(exp_ci, "_create_points_datasets")
+    for st in dims:
+        ctx.holds(holder or exp_ci.key, st, "dimension decided by the exact test %s" % norm_text(st.test))
 
 
 def _check_cache_keys(ctx, prog, imp_ci):
@@ -1085,6 +1133,25 @@ def _is_range_check(fi):
 
 def variants():
     out = []
+
+    def merge_swapped(tree):
+        f = find_func(tree, "VMAPImport._var_element_nodal_index")
+        for c in calls_in(f):
+            if isinstance(c.func, ast.Attribute) and c.func.attr == "merge" and isinstance(c.func.value, ast.Name) and \
+                    c.args and isinstance(c.args[0], ast.Name):
+                c.func.value, c.args[0] = c.args[0], c.func.value
+                return True
+        return False
+    out.append(witness("element-nodal index merged with the geometry index on the left", IMP_PATH, merge_swapped, "R-C20-7"))
+
+    def dim_allclose(tree):
+        f = find_func(tree, "VMAPExport._create_points_datasets")
+        for n in ast.walk(f):
+            if isinstance(n, ast.If) and "z[0]" in ast.unparse(n.test):
+                n.test = parse_expr("not np.allclose(z, z[0])")
+                return True
+        return False
+    out.append(witness("3-D detection with np.allclose", EXP_PATH, dim_allclose, "R-C20-7"))
 
     def sorted_element_ids(tree):
         f = find_func(tree, "VMAPExport.add_variable")
